@@ -2,6 +2,7 @@
 From Coq Require Import String List NArith ZArith Bool.
 Require Import Lib.GoStr Ssz.Sha256 Ssz.Ssz Ssz.Rotation Ssz.RotationProofs Ssz.TasksProofs.
 Require Gen.Baked.
+Require Node.Types Node.Process Node.Export Node.ExportProofs.
 Import ListNotations.
 Local Open Scope Z_scope.
 
@@ -35,3 +36,64 @@ Theorem C03_expand_baked :
                   ms_file m = bakedrange_prefix ++ dec_of_Z (s + Z.of_nat k).
 Proof. exact baked_range_spec. Qed.
 Print Assumptions C03_expand_baked.
+
+(* the payload stored and exported next to the final signature.  `export_signatures` shows, per
+   message id of the batch, the FIRST entry of the slot (utils.PrepareSignaturesToDump; compared
+   with the real function on every run) ... *)
+Theorem C03_export_shows_first_entries :
+  forall b out, Node.Export.export_batch b = Some out ->
+  map fst out = map fst b /\
+  forall id ex, In (id, ex) out -> exists e r, In (id, e :: r) b /\ ex = Node.Export.export_entry e.
+Proof. exact Node.ExportProofs.export_batch_spec. Qed.
+
+Theorem C03_export_refuses_iff_some_message_has_no_entry :
+  forall b, Node.Export.export_batch b = None <-> exists id, In (id, []) b.
+Proof. exact Node.ExportProofs.export_batch_refuses_iff. Qed.
+
+(* ... the proposal files one stub per expanded message (payload, file and id of the expansion, the
+   proposer's name) and, the message ids of a batch being distinct and the batch new, each stub is
+   the first entry of its slot ... *)
+Theorem C03_stubs_of_the_proposal_come_first :
+  forall l store batch,
+  (forall s, In s l -> Node.Types.rs_batch s = batch) -> NoDup (map Node.Types.rs_msgid l) ->
+  (forall s, In s l -> Node.Export.first_entry store batch (Node.Types.rs_msgid s) = None) ->
+  forall s, In s l ->
+    Node.Export.first_entry (fold_left Node.Process.add_sig l store) batch (Node.Types.rs_msgid s) = Some s.
+Proof. exact Node.ExportProofs.fresh_entries_come_first. Qed.
+
+(* ... and whatever reconstructions are saved afterwards, by whomever and in whatever order, no
+   participant other than the proposer changes that first entry: the exported payload and file stay
+   the proposed ones ... *)
+Theorem C03_others_never_change_the_exported_entry :
+  forall l store x,
+  Node.Export.first_entry store (Node.Types.rs_batch x) (Node.Types.rs_msgid x) = Some x ->
+  (forall s, In s l -> Node.Types.rs_batch s = Node.Types.rs_batch x -> Node.Types.rs_msgid s = Node.Types.rs_msgid x ->
+             Node.Types.rs_user s <> Node.Types.rs_user x) ->
+  Node.Export.first_entry (fold_left Node.Process.add_sig l store) (Node.Types.rs_batch x) (Node.Types.rs_msgid x) = Some x.
+Proof. exact Node.ExportProofs.others_never_change_the_export. Qed.
+
+(* ... in general the exported entry is the proposer's latest one for the slot (the stub, signature
+   empty, until the proposer's own reconstruction arrives): of the same batch, message and user,
+   and either the stub or one of the saved entries.  _partial: that the payload INSIDE the
+   proposer's own broadcast equals the proposed one is the node model's reconstruct (C01/C07
+   broadcast_of_reconstruction_is_stored) for an honest proposer; a dishonest proposer's broadcast
+   is stored as sent (DESIGN 12.7, outside) *)
+Theorem C03_exported_entry_is_the_proposers_latest_partial :
+  forall l store x,
+  Node.Export.first_entry store (Node.Types.rs_batch x) (Node.Types.rs_msgid x) = Some x ->
+  Node.Export.first_entry (fold_left Node.Process.add_sig l store) (Node.Types.rs_batch x) (Node.Types.rs_msgid x)
+    = Some (Node.ExportProofs.latest x l) /\
+  (Node.Types.rs_batch (Node.ExportProofs.latest x l) = Node.Types.rs_batch x /\
+   Node.Types.rs_msgid (Node.ExportProofs.latest x l) = Node.Types.rs_msgid x /\
+   Node.Types.rs_user (Node.ExportProofs.latest x l) = Node.Types.rs_user x) /\
+  (Node.ExportProofs.latest x l = x \/ In (Node.ExportProofs.latest x l) l).
+Proof. exact Node.ExportProofs.exported_entry_is_latest. Qed.
+Print Assumptions C03_exported_entry_is_the_proposers_latest_partial.
+
+Example C03_export_example :
+  Node.ExportProofs.ex_exports
+    [Node.ExportProofs.ex_stub 1; Node.ExportProofs.ex_stub 2; Node.ExportProofs.ex_from 2 1 55;
+     Node.ExportProofs.ex_from 1 1 55; Node.ExportProofs.ex_from 1 2 66; Node.ExportProofs.ex_from 2 2 77]%N =
+  Some [(1%N, {| Node.Export.ex_payload := 101%N; Node.Export.ex_sig := 55%N; Node.Export.ex_file := 1%N |});
+        (2%N, {| Node.Export.ex_payload := 102%N; Node.Export.ex_sig := 66%N; Node.Export.ex_file := 2%N |})].
+Proof. exact (proj2 Node.ExportProofs.export_example). Qed.
